@@ -548,7 +548,46 @@ func runPeekIter(c Single) (trace, error) {
 			return tr, vk.Violf("not-lazy", "iterator WithPeek: %d items pulled, only %d consumed", src.Handed, consumed)
 		}
 	}
+	// the Peekable is an iterator like any other: handed on - possibly with a peeked item pending - the rest of the
+	// sequence comes out of whatever is built on it
+	if mode, pend := peekHandover(c); mode != 0 {
+		// (once over the recording source, once over one of the library's own iterators, brought to the same position)
+		p2 := iterator.WithPeek(iterator.Slice(append([]int{}, c.Input...)))
+		for i := 0; i < consumed; i++ {
+			p2.Next()
+		}
+		for round, p := range []iterator.Peekable[int]{p, p2} {
+			if pend {
+				p.Peek()
+			}
+			var rest []int
+			switch mode {
+			case 1:
+				rest = iterator.Collect[int](p)
+			case 2:
+				rest = iterator.Collect(iterator.Map[int, int](p, func(x int) int { return x }))
+			default:
+				for _, ch := range iterator.Collect(iterator.Chunk[int](p, 3)) {
+					rest = append(rest, ch...)
+				}
+			}
+			if !reflect.DeepEqual(append([]int{}, rest...), append([]int{}, c.Input[consumed:]...)) {
+				return tr, vk.Violf("wrong-output", "iterator WithPeek over %v (source %d): after %d items were taken (a Peek pending: %v) the Peekable was handed on (mode %d) and yielded %v", c.Input, round, consumed, pend, mode, rest)
+			}
+			if round == 0 {
+				for _, x := range rest {
+					tr.outs = append(tr.outs, []int{x})
+				}
+			}
+		}
+	}
 	return tr, nil
+}
+
+// peekHandover: what happens to a Peekable after its Peek/Next script: 0 nothing, 1 Collect, 2 Map+Collect,
+// 3 Chunk+Collect; pend = one more Peek first.
+func peekHandover(c Single) (mode int, pend bool) {
+	return (len(c.Peeks) + len(c.Input)) % 4, len(c.Peeks)%2 == 0
 }
 
 // ---------------------------------------------------------------------------------------------
@@ -728,7 +767,12 @@ func runStream(c Single) (trace, error) {
 func runPeekStream(c Single) (trace, error) {
 	src := sk.NewRecStream("src", c.Input)
 	p := stream.WithPeek[int](src)
-	defer p.Close()
+	handedOn := false
+	defer func() {
+		if !handedOn {
+			p.Close()
+		}
+	}()
 	var tr trace
 	consumed := 0
 	for i, isPeek := range c.Peeks {
@@ -752,6 +796,32 @@ func runPeekStream(c Single) (trace, error) {
 		}
 		if src.Handed() > consumed+1 {
 			return tr, vk.Violf("not-lazy", "stream WithPeek: %d items pulled, only %d consumed", src.Handed(), consumed)
+		}
+	}
+	if mode, pend := peekHandover(c); mode != 0 {
+		if pend {
+			p.Peek(bg)
+		}
+		handedOn = true
+		var rest []int
+		var err error
+		switch mode {
+		case 1:
+			rest, err = stream.Collect[int](bg, p)
+		case 2:
+			rest, err = stream.Collect(bg, stream.Map[int, int](p, func(_ context.Context, x int) (int, error) { return x, nil }))
+		default:
+			var chunks [][]int
+			chunks, err = stream.Collect(bg, stream.Chunk[int](p, 3))
+			for _, ch := range chunks {
+				rest = append(rest, ch...)
+			}
+		}
+		if err != nil || !reflect.DeepEqual(append([]int{}, rest...), append([]int{}, c.Input[consumed:]...)) {
+			return tr, vk.Violf("wrong-output", "stream WithPeek over %v: after %d items were taken (a Peek pending: %v) the Peekable was handed on (mode %d) and yielded (%v, %v)", c.Input, consumed, pend, mode, rest, err)
+		}
+		for _, x := range rest {
+			tr.outs = append(tr.outs, []int{x})
 		}
 	}
 	return tr, nil
